@@ -561,4 +561,24 @@ theorem PQ.R.ordered (hs : StrictWeak plt) (hl : H.Lawful (Entry.lt plt)) {s : P
     · have := yields_eq hl k [] s.pq
       simpa using this.symm
 
+theorem PQ.R.set_pri (hl : H.Lawful (Entry.lt plt)) {s : PQ π} {L} (h : PQ.R plt s L)
+    (idx : Nat) (hi : idx < s.pq.length) (np : π) :
+    PQ.R plt ⟨s.seq, H.heapify (Entry.lt plt) (s.pq.set idx { s.pq[idx] with pri := np })⟩
+      (specResched L (s.pq[idx]).seq np) := by
+  have hnd : (s.pq.map (·.seq)).Nodup := (h.perm.map _).nodup_iff.mpr (inc_seq_nodup h.inc)
+  have hset := set_eq_map_of_nodup hnd _ hi np
+  refine ⟨?_, hl.heapify_heap _, ?_, ?_⟩
+  · refine (hl.heapify_perm _).trans ?_
+    rw [hset]
+    exact h.perm.map _
+  · simp only [specResched, List.pairwise_map]
+    refine h.inc.imp ?_
+    intro a b hab
+    split <;> split <;> simpa using hab
+  · intro e he
+    simp only [specResched, List.mem_map] at he
+    obtain ⟨y, hy, rfl⟩ := he
+    have := h.bound y hy
+    split <;> simpa using this
+
 end Asynkit
